@@ -101,4 +101,31 @@ theorem get_values_and_class_eq (shape : List Nat) (valid : List Cls) (hv : Py.g
       simp only [pure_bind, hp]
       rfl
 
+/-- **`get_values` as written in dcmmeta.py is the value half of that lookup**: the values under the first valid class, in the
+    order of `get_valid_classes`, whose dictionary holds the key; None for a key no valid class holds -/
+theorem get_values_eq (shape : List Nat) (valid : List Cls) (hv : Py.get_valid_classes shape = .ok valid)
+    (d : KeyDict α) :
+    Py.get_values shape d = .ok ((KeyDict.valuesAndClass valid d).map (·.2)) := by
+  have h := get_values_and_class_eq shape valid hv d
+  simp only [Py.get_values_and_class] at h
+  simp only [Py.get_values]
+  cases hc : Py.get_classification shape d with
+  | error e => rw [hc] at h; simp [bind, Except.bind] at h
+  | ok oc =>
+    rw [hc] at h
+    cases oc with
+    | none =>
+      simp only [bind, Except.bind, pure, Except.pure] at h ⊢
+      injection h with h
+      rw [← h]; rfl
+    | some c =>
+      simp only [bind, Except.bind, pure, Except.pure] at h ⊢
+      cases hg : KeyDict.get d c with
+      | error e => rw [hg] at h; simp at h
+      | ok v =>
+        rw [hg] at h
+        simp only [] at h ⊢
+        injection h with h
+        rw [← h]; rfl
+
 end Src
